@@ -18,7 +18,7 @@ func init() {
 		"C15-immutable (written only by the constructor or before the object is published to another goroutine), C15-guarded (every access outside the constructor holds the field's mutex on the same object in the must-held lock set; reads may hold it in read mode; unlocked reads are accepted only in the single function that performs all writes, i.e. on the writing goroutine), " +
 		"C15-confined (fields touched only by the connection goroutine, by C13-inline including Request.StartTLS), C15-precondition (Mux tables and Server.router are only written by the registration methods; 'routes registered before Run'), " +
 		"C15-waitgroup (Add/Done/Wait pairing and ordering of requestsWg and connWg), C15-copylocks (no by-value copy of a struct holding a mutex), C15-foreign-config (gldap writes fields only of tls.Configs it built or cloned itself), C15-capture (no go closure captures a variable that is assigned again after the spawn), C15-classified (no unclassified field). " +
-		"C15-alias (a mutex-guarded slice field whose elements are written in place - index store, copy, append onto a re-slice - never has its backing array returned by a getter or handed to a callee that keeps it). Does not decide races in user handlers or anything that contradicts the stated confinement assumption."
+		"C15-encode-readonly (no Encode method of a control and no packet method of a response stores through its receiver: they run before the writer lock, on objects shared between responses), C15-alias (a mutex-guarded slice field whose elements are written in place - index store, copy, append onto a re-slice - never has its backing array returned by a getter or handed to a callee that keeps it). Does not decide races in user handlers or anything that contradicts the stated confinement assumption."
 }
 
 type fieldClass struct {
@@ -699,6 +699,65 @@ func checkC15(c *Ctx) {
 	// the array must not be reachable from outside the lock - returned by a getter, or handed to a function that keeps
 	// it (a response's SetControls, encoded after the handler has released the lock).
 	c.checkSliceAlias(fns, c15Table, pkgOf)
+
+	// ---- C15-encode-readonly: a response and its controls are encoded by ResponseWriter.Write before the writer lock is
+	// taken, and one control object is routinely attached to many responses (a server's fixed policy control, the test
+	// directory's controls): the encoders - every Encode method of a control type and every packet method of a response
+	// type, with what they call - only read the object they encode (no store through the receiver: no lazily cached
+	// encoding, no counters)
+	{
+		n := 0
+		for _, f := range fns {
+			if an.FuncPkgPath(f) != G || f.Signature.Recv() == nil || f.Parent() != nil || len(f.Params) == 0 {
+				continue
+			}
+			if f.Name() != "Encode" && f.Name() != "packet" {
+				continue
+			}
+			if f.Name() == "Encode" && !(f.Signature.Params().Len() == 0 && f.Signature.Results().Len() == 1) {
+				continue
+			}
+			n++
+			bad := ""
+			for g := range syncReach(f) {
+				if !an.InModule(g) || len(g.Params) == 0 {
+					continue
+				}
+				// stores through g's own receiver / first parameter when that is the encoded object handed down
+				if g != f {
+					continue // callees are given packets under construction; only the encoder's own receiver is the shared object
+				}
+				an.Instrs(g, func(in ssa.Instruction) {
+					st, ok := in.(*ssa.Store)
+					if !ok {
+						return
+					}
+					root := st.Addr
+					for {
+						if fa, ok := root.(*ssa.FieldAddr); ok {
+							root = fa.X
+							continue
+						}
+						if ia, ok := root.(*ssa.IndexAddr); ok {
+							root = ia.X
+							continue
+						}
+						if ld, ok := root.(*ssa.UnOp); ok && ld.Op == token.MUL {
+							root = ld.X
+							continue
+						}
+						break
+					}
+					if root == ssa.Value(g.Params[0]) && root != st.Addr {
+						bad = c.pos(st)
+					}
+				})
+			}
+			R.Check(bad == "", "C15-encode-readonly", fname(f)+": encoding only reads the object", c.P.Pos(f.Pos()), "no store through the receiver",
+				"the encoder writes to the object it encodes (at "+bad+"): the same control / response can be encoded by two goroutines at once (ResponseWriter.Write encodes before taking the writer lock), which makes this an unsynchronised write")
+		}
+		R.Count("C15-encode-readonly/encoders", n)
+	}
 
 	// ---- C15-waitgroup: reuse the pairing / ordering rules
 	for _, sub := range []func(*Ctx){checkC08, checkC12} {
